@@ -777,7 +777,7 @@ def _run(run):
     run.rng.shuffle(second)
     jobs = first + second
     limit = None if run.thorough else float(
-        os.environ.get("VERIF_C10_FAULT_SECS", "50"))
+        os.environ.get("VERIF_C10_FAULT_SECS", "40"))
     t_start = time.time()
     results = []
     for res in _POOL.imap(fault_job, jobs, chunksize=2):
